@@ -6,7 +6,7 @@
    C07/Model.v that the correspondence ties execute at binary64. *)
 From Coq Require Import List Arith ZArith Bool Reals.
 From T4V Require Import Base.Scalar C07.Model C07.ProofsAlgebra C07.ProofsComb C07.ProofsMain
-  C07.ProofsGeom C07.ProofsExample C07.ProofsDomain C07.ProofsRhp.
+  C07.ProofsGeom C07.ProofsExample C07.ProofsDomain C07.ProofsRhp C07.ProofsDevelop.
 Import ListNotations.
 Open Scope R_scope.
 
@@ -390,3 +390,50 @@ Theorem C07_rhp9_lattice_vectors : forall c h r : rvec,
   vadd (vscale (1 / 2) r) (vscale (sqrt 3 / 2) (cross (unit_of h) r)).
 Proof. exact rhp9_lattice_vectors. Qed.
 Print Assumptions C07_rhp9_lattice_vectors.
+
+(* ---------- the elements of a hexagonal lattice, end to end on the models ---------- *)
+
+(* develop_lattice_hex = C06's model of develop_lattice (develop_lattice_with,
+   generic in the base vectors, tied there) fed with hexLatticeBaseVectors.  For
+   every admissible prism (hypotheses of C07_hex_base_vectors, six or eight
+   planes) and every FILL array over ranges with one range per base vector and
+   the surplus ranges lo = hi: the generated elements are, in enumeration order,
+   exactly the index tuples of the ranges whose array entry (first index
+   fastest, as for rectangular lattices) is not 0, each once; element idx is the
+   unit cell moved by lattice_point vecs idx = i a1 + j a2 (+ k a3) with a1, a2
+   the translations across the first- and third-listed sides, filled with its
+   entry (own universe: the cell's own material), the filler placed by the fill
+   transformation / TRCL first and the element translation after
+   (D6.elem_located). *)
+Theorem C07_hex_lattice_developed :
+  forall (c u : rvec) (w : nat -> rvec) (l : list nat) (surfs : list rsurf)
+         (cell : M6.lat_cell (T:=R)) (bs : M6.bounds) (spec : list Z),
+  In l all_listings ->
+  (forall i, (i < 6)%nat -> carries u w (pl surfs i) (side_at l i)) ->
+  (forall i, (i < 6)%nat -> sd surfs i = planeSide RS c (pl surfs i) /\ sd surfs i <> 0%Z) ->
+  (forall k, wv w (k + 3) = vsub (vscale 2 c) (wv w k)) ->
+  ((forall k, 0 < det3 (vsub (wv w (k + 1)) (wv w k)) (vsub (wv w (k + 2)) (wv w (k + 1))) u) \/
+   (forall k, det3 (vsub (wv w (k + 1)) (wv w k)) (vsub (wv w (k + 2)) (wv w (k + 1))) u < 0)) ->
+  (List.length surfs = 6%nat \/
+   (List.length surfs = 8%nat /\ dot u (snd (pl surfs 6)) <> 0 /\ dot u (snd (pl surfs 7)) <> 0)) ->
+  M6.lc_fill cell = M6.FSpec bs spec -> bs <> [] -> I6.wf_bounds bs ->
+  Z.of_nat (List.length spec) = M6.size bs ->
+  (List.length surfs / 2 - 1 <= List.length bs)%nat ->
+  Forall I6.trivial_range (skipn (List.length surfs / 2 - 1) bs) ->
+  D6.cell_shape_ok cell ->
+  exists vecs elems,
+    hexLatticeBaseVectors RS surfs = Ok vecs /\
+    List.length vecs = (List.length surfs / 2 - 1)%nat /\
+    nth 0 vecs (0, 0, 0) = proj_par u (if Nat.eqb (List.length surfs) 6 then u else snd (pl surfs 6))
+                                    (across c w (side_at l 0)) /\
+    nth 1 vecs (0, 0, 0) = proj_par u (if Nat.eqb (List.length surfs) 6 then u else snd (pl surfs 6))
+                                    (across c w (side_at l 2)) /\
+    develop_lattice_hex surfs cell = M6.Ok elems /\
+    map (@M6.ne_index R) elems = map fst (filter D6.nonzero (combine (M6.indices bs) spec)) /\
+    NoDup (map (@M6.ne_index R) elems) /\
+    Forall (fun e =>
+      I6.in_ranges (M6.ne_index e) bs /\
+      let v := nth (Z.to_nat (I6.flat_index bs (M6.ne_index e))) spec 0%Z in
+      v <> 0%Z /\ D6.elem_located cell vecs v e) elems.
+Proof. exact hex_lattice_developed. Qed.
+Print Assumptions C07_hex_lattice_developed.
